@@ -327,3 +327,39 @@ def c03(run):
     run.cov['rule'] = ('fake-primitive Encrypt0 / Encrypt messages: IV, Partial IV + Base IV, generated IV; wrong key, wrong external data, mutated encodings (12 classes), Payload inspected after every failed Decrypt; '
                        '12 real AEAD algorithms: bit flips over ciphertext / IV / protected bytes / tag prefix / array shape, truncation, extension, other key, other kind, splices')
     return D.finish(run, 'proof')
+
+
+@check('C09')
+def c09(run):
+    run.trusted += MSG_TRUST + ['stream values: encode / decode / compare on the implementation for keys, key sets, header maps, claim sets (struct and map forms), recipients, KDF contexts, ByteStr (CBOR, JSON, text)']
+    run.assumptions += ['the bytes written for the unprotected header map decode (hypothesis of the still-verifies theorems; compared with the implementation by msgparts)',
+                        'members within the decoder limits (`encodable`)']
+    D.prove(run, extra_targets=['Model/MsgWireCorr.vo'])
+    rc, o = D.harness_build()
+    if rc != 0:
+        run.broke('harness build', o[-1500:])
+    else:
+        D.correspond(run, 'msg', [], reference_theorem='C09_reencode_* (model of MarshalCBOR after UnmarshalCBOR)')
+        D.correspond(run, 'msgparts', [], reference_theorem='C09_decode_encode / C09_struct_members_roundtrip (header maps, recipients, KDF contexts)')
+        D.oracle(run, 'values', [])
+    run.cov['rule'] = ('every produced message of the 6 kinds decoded and re-encoded (bytes must be identical), in the three tagging forms; mutated and foreign (non-canonical, verifying) encodings re-encoded and consumed again; '
+                       'recipients with one nesting level, KDF contexts with nil / empty / non-empty members, header maps; keys of all 24 algorithms and random key maps, key sets, claim sets in struct and map form, ByteStr in 3 forms: encode, decode, compare, encode again')
+    return D.finish(run, 'proof')
+
+
+@check('C01')
+def c01(run):
+    run.trusted += MSG_TRUST + ['stream msgreal: the 24 real algorithms with generated keys, produced and consumed through the registry (Key.Signer / Verifier / MACer / Encryptor)']
+    run.assumptions += ['functional correctness of the primitive pair (verify accepts what sign produced; decrypt opens what encrypt sealed): hypothesis of the theorems, observed for the 24 algorithms by msgreal',
+                        'the two header maps decode from the bytes written for them (hypothesis; the CoseMap codec is compared with the implementation by msgparts)',
+                        'multi-layer kinds (COSE_Sign, COSE_Mac, COSE_Encrypt): round trip by correspondence and oracle; theorems cover the tagging forms and dependence on the wire struct only']
+    D.prove(run, extra_targets=['Model/MsgWireCorr.vo'])
+    rc, o = D.harness_build()
+    if rc != 0:
+        run.broke('harness build', o[-1500:])
+    else:
+        D.correspond(run, 'msg', [], reference_theorem='C01_*_roundtrip (model of produce and consume)')
+        D.oracle(run, 'msgreal', [])
+    run.cov['rule'] = ('6 kinds x fake keys (alg / kid / Base IV variants) x header maps (int / text labels of several Go integer types; int, bstr, tstr, bool, array, nested-map values) x payload kinds (nil, empty, bytes 1..70000 crossing every length-head class, RawMessage, typed) x external data (nil, empty, up to 256 bytes) x 0..3 recipients with one nesting level / 0..4 signers, consumed tagged, untagged and CWT-tagged; '
+                       '24 real algorithms x 2 kinds each x payload lengths 0..1000 (thorough: 65535..70000) x headers x external data, consumed in the three forms with content compared')
+    return D.finish(run, 'proof')
